@@ -330,7 +330,13 @@ def handleMD (a : List String) : String :=
       let dfltOk := match rest with
         | pkg :: _ => (pkgs.find? (·.name == pkg)).map (fun P => P.dflt == (C.inst.t, C.inst.rf, C.inst.rp)) == some true
         | _ => false
-      if (ctor == "reg" || ctor == "new") && !dfltOk then "bad-params" else
+      if (ctor == "reg" || ctor == "new" || ctor == "regsize") && !dfltOk then "bad-params" else
+      if ctor == "regsize" then
+        -- registry metadata: `Size()` of the id = `Size()` of the hasher = length of the model's `Sum(nil)` on a fresh hasher
+        match toks, (mdStep C.md C.md.iv (.sum [])).2 with
+        | [], .bytes v => let n := toHex v.length; s!"{n} {n} {n}"
+        | _, _ => "bad-op"
+      else
       match ctor.splitOn ":" with
       | [c, iv] =>
         -- generic constructor `hash.NewMerkleDamgardHasher(perm, iv)`; `genm` = the caller overwrites iv afterwards
@@ -349,7 +355,14 @@ def vxCompress (C : CInst) (a b : List Nat) : List Nat := (permute (natOps C.q) 
 /-- overwrite `dst` from position 0 with `src` (Go `copy`) -/
 def overwrite (dst src : List Nat) : List Nat := src.take dst.length ++ dst.drop src.length
 
-/-- `HashPoseidon2`: overwrite-mode sponge, rate 16 (positions 8..23), capacity 8, no padding -/
+/-- the input completed with zeros to a whole number of rate blocks (16 elements) -/
+def vxPad (x : List Nat) : List Nat := x ++ List.replicate ((16 - x.length % 16) % 16) 0
+
+/-- `HashPoseidon2` as DOCUMENTED (`field/koalabear/vortex/hash.go`: "The input is zero-padded so it should be used only in
+the context of fixed length hashes"): overwrite-mode sponge, rate 16 (positions 8..23), capacity 8, over the ZERO-PADDED
+input. (The Go loop `copy(state[8:], x[i:])` overwrites only the first `len(x) % 16` rate positions with a final partial
+block and keeps the output of the previous permutation in the others: that is not this function when `len(x) > 16` and
+`16 ∤ len(x)`.) -/
 def vxHash (C : CInst) (x : List Nat) : List Nat :=
   let rec go (fuel : Nat) (state : List Nat) (x : List Nat) : List Nat :=
     match fuel with
@@ -358,7 +371,7 @@ def vxHash (C : CInst) (x : List Nat) : List Nat :=
       if x.isEmpty then state else
       let st := state.take 8 ++ overwrite (state.drop 8) (x.take 16)
       go fuel (permute (natOps C.q) C.inst st) (x.drop 16)
-  (go (x.length + 1) (List.replicate 24 0) x).take 8
+  (go ((vxPad x).length + 1) (List.replicate 24 0) (vxPad x)).take 8
 
 def handleVx (a : List String) : String :=
   match a with
